@@ -255,7 +255,7 @@ func runAccess(c *caseSpec, d *driver) *caseResult {
 	case c.Schema == "post" && impl == "ok":
 		admitted := ""
 		for _, call := range m.Calls {
-			if strings.HasPrefix(call, "admit ") {
+			if strings.HasPrefix(call, "pool ") {
 				admitted = strings.Fields(call)[1]
 			}
 		}
